@@ -704,15 +704,18 @@ def main(run):
         "matrix circ_mat(QFT n) of Base/Mat.v is the DFT column, bit-reversed output without swaps; pstep_rules_agree_with_matrices; matrix "
         "associativity proved). Remaining outside the static proof: the real H / CU1(pi/2^k) / SWAP matrices equal the matrices of "
         "to_gapp -- proved per run by TrigMat obligations for k <= 6, compared numerically for k = 7..12",
-        "ehrlich_enumerates for all n: NOT proved; the LOCAL half is proved for all n and all initial strings (ehrlich_steps_are_transpositions: weight and length preserved, each step exactly one transposition, reported moves correct); the GLOBAL half (no failure, no repetition, hence every weight-k string exactly once) is proved by vm_compute for every 1 <= k < n <= 12 only (bound stated in the theorem)",
+        "ehrlich_enumerates is PROVED for ALL n and all initial strings with consecutive ones (ehrlich_enumerates, ehrlich_enumerates_initial: "
+        "the walk never fails, has binom(n,k) strings without repetition = exactly the weight-k strings, ends on the closed form endf, every step "
+        "is the reported transposition); independent cross-check by computation for n <= 10 (ehrlich_enumerates_bounded)",
         "unary encoders: PROVED at ring level for all n, no division (zero blocks included): the diagonal ladder (rbs_chain_rotations, "
         "unary_diagonal_ok_ring) and the BREADTH-FIRST tree gate list of _generate_rbs_pairs (unary_tree_bfs_ok_ring; recursive form "
         "unary_tree_ok_ring). NOT proved: that the acos/atan2 angle formulas of the real code satisfy the load equations (data-level tests "
         "incl. all 0/1 patterns of length 4 and 8)",
-        "hw_encoder_ok: PROVED at ring level for every chain of controlled RBS gates satisfying the decidable condition chain_ok "
-        "(hw_chain_ok_loads, all n); the real gate skeleton satisfies chain_ok for 1 <= k < n <= 10, both optimize_controls settings, by "
-        "vm_compute (hw_encoder_ok_bounded). NOT proved: chain_ok for all n (depends on the global structure of the Ehrlich walk), complex data "
-        "(RZ layers), the lexicographic re-ordering of the data, binary_encoder amplitudes (data-level tests)",
+        "hw_encoder_ok at ring level: PROVED for ALL n with the full control sets (optimize_controls=False, the variant used by "
+        "binary_encoder): hw_encoder_ok_full_controls -- along the Ehrlich walk from any consecutive-ones string the controlled RBS chain loads "
+        "the diagonal spread on the walk strings (= all weight-k strings, each once) and 0 elsewhere; with optimize_controls=True the "
+        "non-interference condition chain_ok is verified for 1 <= k < n <= 10 by vm_compute only (hw_encoder_ok_bounded). NOT proved: optimised "
+        "controls for n > 10, complex data (RZ layers), the lexicographic re-ordering of the data, binary_encoder amplitudes (data-level tests)",
     ]
     qft_structure(run, 12)
     qft_instances(run, 6 if thorough else 5)
